@@ -82,7 +82,9 @@ def cases(draw):
 @st.composite
 def step(draw):
     kind = draw(st.sampled_from(["use_parent", "use_child", "use_child", "reconf_kw", "reconf_prop",
-                                 "reconf_sub", "reconf_flag"]))
+                                 "reconf_sub", "reconf_flag", "assign_parent_props"]))
+    if kind == "assign_parent_props":
+        return {"op": kind}
     if kind == "reconf_flag":
         return {"op": kind, "index": draw(st.integers(0, 6)), "required": draw(st.booleans())}
     if kind == "reconf_kw":
@@ -101,6 +103,8 @@ def step(draw):
 def flat_recipe(chain, idx=None):
     idx = idx or R.index(chain)
     kw, sub, props = R.flat_class(chain[-1], idx)
+    if chain[-1].get("props_reset"):
+        props = chain[-1]["props"]  # `.properties = ...` replaced the merged dictionary as a whole
     return {"id": 8000, "kind": "Object", "name": "Flat", "kw": copy.deepcopy(kw),
             "sub": copy.deepcopy(sub), "props": copy.deepcopy(props)}
 
@@ -189,10 +193,19 @@ def predicate(case, stats):
         elif op == "reconf_sub":
             setattr(child, st_["key"], st_["value"])
             node.setdefault("sub", {})[st_["key"]] = st_["value"]
+        elif op == "assign_parent_props":
+            # Child.properties = Parent.properties: the child now declares exactly the parent's properties
+            # (its own copies - later in-place edits of the child must not reach the parent)
+            child.properties = parent.properties
+            _, _, pprops = R.flat_class(model[0], R.index(model))
+            node["props"] = copy.deepcopy(pprops)
+            node["props_reset"] = True
         elif op == "reconf_flag":
             # flip the required flag of a (possibly inherited) property wrapper *on the child*
             _, _, merged = R.flat_class(node, R.index(model))
-            if not merged:
+            if not merged or node.get("props_reset"):
+                # after `Child.properties = Parent.properties` the two classes hold the SAME wrapper
+                # objects by the caller's own doing; mutating such a wrapper is not claimed by the statement
                 continue
             q = copy.deepcopy(merged[st_["index"] % len(merged)])
             child.properties[q["name"]].required = st_["required"]
